@@ -203,6 +203,43 @@ func runReadOrder(c *Ctx, r *RuleRun) {
 			ok := hasFact(u.ins, func(cm Cmp) bool {
 				return cm.Op == "==" && cm.Y != nil && ((ofElem(cm.X) && recv(cm.Y)) || (ofElem(cm.Y) && recv(cm.X)))
 			})
+			if !ok {
+				// a search loop written out: for e != nil && e.Value != imt { e = e.Next() }; if e != nil { Remove(e) } - every
+				// way into the non-nil test either has e == nil (and does not get past it) or has found the memtable
+				for _, ce := range dominatingConds(u.ins) {
+					cm := canonCond(ce.If.Cond, ce.Truth)
+					if !(cm.Op == "!=" && cm.Y != nil && cm.X == elem && isNilConst(cm.Y)) {
+						continue
+					}
+					tb := ce.If.Block()
+					if len(tb.Preds) < 2 {
+						continue
+					}
+					all := true
+					for _, pb := range tb.Preds {
+						way := false
+						for _, f0 := range edgeFacts(pb, tb) {
+							for _, c2 := range []Cmp{f0, f0.Flip()} {
+								if c2.Op != "==" || c2.Y == nil {
+									continue
+								}
+								if c2.X == elem && isNilConst(c2.Y) {
+									way = true
+								}
+								if ofElem(c2.X) && recv(c2.Y) {
+									way = true
+								}
+							}
+						}
+						if !way {
+							all = false
+						}
+					}
+					if all {
+						ok = true
+					}
+				}
+			}
 			if hc, isCall := elem.(*ssa.Call); isCall && !ok {
 				// the element was looked up by a helper: elementOf(list, mt) answers nil or the element whose value is mt,
 				// and the removal happens only for a non-nil answer
@@ -500,6 +537,53 @@ func runReadFlusher(c *Ctx, r *RuleRun) {
 	}
 }
 
+// sameKeyArgs: IsSameKey(a, b) compares the key asked for (a parameter, or a variable of the enclosing function a
+// closure captured) with the key of an entry.
+func sameKeyArgs(call *ssa.Call) bool {
+	isAsked := func(v ssa.Value) bool {
+		switch x := v.(type) {
+		case *ssa.Parameter:
+			return true
+		case *ssa.FreeVar:
+			return true
+		case *ssa.UnOp:
+			_, fv := x.X.(*ssa.FreeVar)
+			return fv && x.Op == token.MUL
+		}
+		return false
+	}
+	if len(call.Call.Args) != 2 {
+		return false
+	}
+	return isAsked(call.Call.Args[0]) != isAsked(call.Call.Args[1])
+}
+
+// sameKeyFilter: every way on which the lookup helper (or closure) h answers "found" carries the same-user-key test:
+// the answer is the test itself (`return entry, ok && IsSameKey(key, entry.Key)`), or a fact of that way, or - via
+// deeper - what a helper of h established.
+func sameKeyFilter(p *Prog, h, isSame *ssa.Function, deeper func(*ssa.Return) bool) bool {
+	all, n := true, 0
+	for _, rc := range returnCases(h) {
+		if len(rc.Vals) != 2 || isConstBool(rc.Vals[1], false) {
+			continue
+		}
+		n++
+		if call := callTo(p, rc.Vals[1], isSame); call != nil && sameKeyArgs(call) {
+			continue
+		}
+		if caseBoolFact(rc, func(v ssa.Value) bool {
+			call := callTo(p, v, isSame)
+			return call != nil && sameKeyArgs(call)
+		}, true) {
+			continue
+		}
+		if deeper == nil || !deeper(rc.Ret) {
+			all = false
+		}
+	}
+	return all && n > 0
+}
+
 func runReadHit(c *Ctx, r *RuleRun) {
 	p := c.P
 	search := p.FnOr("", "DB", "search")
@@ -517,10 +601,7 @@ func runReadHit(c *Ctx, r *RuleRun) {
 			if call == nil {
 				return false
 			}
-			// one argument is the key parameter, the other the Key of an entry
-			_, p0 := call.Call.Args[0].(*ssa.Parameter)
-			_, p1 := call.Call.Args[1].(*ssa.Parameter)
-			return p0 != p1
+			return sameKeyArgs(call)
 		}, true) {
 			return true
 		}
@@ -541,18 +622,7 @@ func runReadHit(c *Ctx, r *RuleRun) {
 			if h == nil || !isEntryLookup(p, h) || h.Pkg != search.Pkg {
 				return false
 			}
-			all, n := true, 0
-			eachInstr(h, func(i2 ssa.Instruction) {
-				ret, ok := i2.(*ssa.Return)
-				if !ok || len(ret.Results) != 2 || isConstBool(retOperand(ret, 1), false) {
-					return
-				}
-				n++
-				if !sameKeyFactD(ret, depth+1) {
-					all = false
-				}
-			})
-			return all && n > 0
+			return sameKeyFilter(p, h, isSame, func(ret *ssa.Return) bool { return sameKeyFactD(ret, depth+1) })
 		}, true)
 	}
 	sameKeyFact := func(ins ssa.Instruction) bool { return sameKeyFactD(ins, 0) }
@@ -951,7 +1021,7 @@ func runOracleRestart(c *Ctx, r *RuleRun) {
 	fromM := func(v ssa.Value) bool { return callTo(p, v, mrec) != nil }
 	fromL := func(v ssa.Value) bool { return callTo(p, v, lrec) != nil }
 	isMax := func(v ssa.Value) bool {
-		if isOpenCodedMax(v) {
+		if isOpenCodedMax(p, v) {
 			return true
 		}
 		call, ok := v.(*ssa.Call)
@@ -1951,6 +2021,17 @@ func runSkipDescent(c *Ctx, r *RuleRun) {
 					if !truth {
 						t = blk.Succs[1]
 					}
+					// within the innermost loop around the test (a `break` that leaves the walk of one level comes back
+					// through the loop over the levels, but not within the walk)
+					var inner map[*ssa.BasicBlock]bool
+					for _, nl := range naturalLoops(blk.Parent()) {
+						if nl.body[blk] && (inner == nil || len(nl.body) < len(inner)) {
+							inner = nl.body
+						}
+					}
+					if inner != nil {
+						return inner[t]
+					}
 					return t == blk || reaches(t, blk)
 				}
 				return false
@@ -2252,7 +2333,10 @@ func fetchSitesOf(p *Prog, f, fetch *ssa.Function) []fetchSite {
 
 // isOpenCodedMax: a merge phi that takes a new value only on an edge on which that value was seen to be greater than
 // (or not smaller than) the value it replaces - `if v > m { m = v }`.
-func isOpenCodedMax(v ssa.Value) bool {
+func isOpenCodedMax(p *Prog, v ssa.Value) bool {
+	if isMaxCell(p, v) {
+		return true
+	}
 	ph, ok := v.(*ssa.Phi)
 	if !ok || len(ph.Edges) < 2 {
 		return false
@@ -2261,7 +2345,12 @@ func isOpenCodedMax(v ssa.Value) bool {
 		x := unconv(e)
 		for _, f0 := range edgeFacts(ph.Block().Preds[i], ph.Block()) {
 			for _, cm := range []Cmp{f0, f0.Flip()} {
-				if (cm.Op != ">" && cm.Op != ">=") || cm.Y == nil || unconv(cm.X) != x {
+				if (cm.Op != ">" && cm.Op != ">=") || cm.Y == nil {
+					continue
+				}
+				// the value compared and the value assigned: the same value, or two reads of one field with nothing in
+				// between (`if entry.Version > m { m = entry.Version }`)
+				if unconv(cm.X) != x && !sameReRead(p, unconv(cm.X), x) {
 					continue
 				}
 				for j, o := range ph.Edges {
